@@ -18,11 +18,12 @@ type group struct {
 }
 
 type family struct {
-	name   string
-	size   int64
-	groups []group
-	get    func(i int64, buf []byte) []byte // materialise case i (may reuse buf)
-	desc   func(i int64) string
+	name    string
+	size    int64
+	groups  []group
+	perTask int64                            // >0: at most this many cases per task (families whose cases are large)
+	get     func(i int64, buf []byte) []byte // materialise case i (may reuse buf)
+	desc    func(i int64) string
 }
 
 var families []*family
@@ -94,7 +95,7 @@ type pairSpan struct {
 
 func buildFamilies(thorough bool) {
 	families = nil
-	all := entriesWith(func(e *entry) bool { return true })
+	all := entriesWith(func(e *entry) bool { return e.tags&tagLong == 0 })
 	core := entriesWith(func(e *entry) bool { return e.tags&tagCore != 0 })
 	wide := entriesWith(func(e *entry) bool { return e.tags&tagWide != 0 })
 	b3 := entriesWith(func(e *entry) bool { return e.tags&tagB3 != 0 })
@@ -226,6 +227,13 @@ func buildFamilies(thorough bool) {
 
 	// (c) stream framing at the receive buffer's capacity
 	families = append(families, streamFullFamily())
+
+	// (d) frames holding several top-level TLVs
+	families = append(families, multiTLVFamily())
+	families = append(families, bigFrameFamily())
+
+	// (e) stream framing: every header form followed by more than a receive buffer of traffic
+	families = append(families, streamLongFamily(thorough))
 }
 
 func wrapFamily(ents []int) *family {
